@@ -19,6 +19,11 @@ import (
 // and `c.s.Lock()` both describe the mutex as "c.s.Mutex".
 func Desc(v ssa.Value) string { return descN(v, 0) }
 
+// descSubst, while non-nil, renders the parameters of an inlined callee as the caller's
+// actual arguments, so that the events of a helper function read exactly as if its body
+// stood at the call site (see Prog.EventsDeep).  The analysis is single-threaded.
+var descSubst map[*ssa.Parameter]string
+
 func descN(v ssa.Value, depth int) string {
 	if v == nil {
 		return "<nil>"
@@ -29,6 +34,9 @@ func descN(v ssa.Value, depth int) string {
 	d := depth + 1
 	switch x := v.(type) {
 	case *ssa.Parameter:
+		if s, ok := descSubst[x]; ok {
+			return s
+		}
 		return paramName(x)
 	case *ssa.FreeVar:
 		return freeVarName(x)
